@@ -30,6 +30,9 @@ func init() {
 			Fields: []string{"Queues", "MainName"}, Calls: []string{"GetByName", "Start"}},
 		skelTarget{Name: "TaskQueue.AddLast", File: "pkg/task/queue/task_queue.go", Recv: "TaskQueue", Func: "AddLast",
 			Fields: []string{"items"}, Calls: []string{"withLock", "addLast", "Handler"}},
+		// the handler's compaction: the callback runs and the new slice is stored inside ONE critical section of the queue lock
+		skelTarget{Name: "TaskQueue.Filter", File: "pkg/task/queue/task_queue.go", Recv: "TaskQueue", Func: "Filter",
+			Fields: []string{"items"}, Calls: []string{"withLock", "withRLock", "filterFn"}},
 		skelTarget{Name: "TaskQueue.GetFirst", File: "pkg/task/queue/task_queue.go", Recv: "TaskQueue", Func: "GetFirst",
 			Fields: []string{"items"}, Calls: []string{"isEmpty", "Handler"}},
 		// Iterate (live metrics, debug endpoints) holds the read lock once: no GetMain/GetByName under it
